@@ -334,6 +334,9 @@ pub unsafe extern "C" fn read(fd: c_int, buf: *mut c_void, count: size_t) -> ssi
     vclock::op_cost();
     let r = r_read()(fd, buf, c);
     let e = errno();
+    if r > 0 {
+        plan::BYTES_MOVED.fetch_add(r as u64, std::sync::atomic::Ordering::SeqCst);
+    }
     log(k::READ, [fd as i64, count as i64, c as i64, 0], r as i64, if r < 0 { e } else { 0 }, if d.short > 0 { 2 } else { 0 });
     if d.delay_after > 0 {
         real_sleep_us(d.delay_after);
@@ -358,6 +361,9 @@ pub unsafe extern "C" fn write(fd: c_int, buf: *const c_void, count: size_t) -> 
     vclock::op_cost();
     let r = r_write()(fd, buf, c);
     let e = errno();
+    if r > 0 {
+        plan::BYTES_MOVED.fetch_add(r as u64, std::sync::atomic::Ordering::SeqCst);
+    }
     log(k::WRITE, [fd as i64, count as i64, c as i64, 0], r as i64, if r < 0 { e } else { 0 }, if d.short > 0 { 2 } else { 0 });
     if d.delay_after > 0 {
         real_sleep_us(d.delay_after);
